@@ -408,7 +408,12 @@ class Interp:
         raise _Continue()
 
     def st_Global(self, s, fr):
-        raise Unsupported('global statement')
+        # module globals live in spec.globals (the contract declares which ones are modelled)
+        for nme in s.names:
+            if nme not in self.spec.globals:
+                # a module global the contract does not track: abstracted (reads are nondeterministic)
+                self.spec.globals[nme] = Untracked()
+            fr.global_names = getattr(fr, 'global_names', set()) | {nme}
 
     def st_Import(self, s, fr):
         for a in s.names:
@@ -449,7 +454,10 @@ class Interp:
 
     def assign(self, t, v, fr):
         if isinstance(t, ast.Name):
-            fr.env[t.id] = v
+            if t.id in getattr(fr, 'global_names', ()):
+                self.spec.globals[t.id] = v
+            else:
+                fr.env[t.id] = v
         elif isinstance(t, (ast.Tuple, ast.List)):
             vals = self.unpack(v, len(t.elts), t)
             for e, x in zip(t.elts, vals):
@@ -531,7 +539,7 @@ class Interp:
         zk = self.map_key(m, key)
         if field not in m.fields:
             return Untracked()
-        return z3.Select(m.fields[field], zk)
+        return wrap(z3.Select(m.fields[field], zk), getattr(m, 'value_cls', None))
 
     def st_If(self, s, fr):
         c = self.truthy(self.eval(s.test, fr))
@@ -606,7 +614,14 @@ class Interp:
         return False
 
     def st_With(self, s, fr):
-        raise Unsupported('with statement at %s:%d' % (fr.fi.file, s.lineno))
+        # only context managers the contract models as no-ops (e.g. warnings.catch_warnings())
+        for it in s.items:
+            v = self.eval(it.context_expr, fr)
+            if not (isinstance(v, tuple) and v and v[0] == 'noop_ctx'):
+                raise Unsupported('with statement over %s at %s:%d' % (ast.unparse(it.context_expr)[:40], fr.fi.file, s.lineno))
+            if it.optional_vars is not None:
+                self.assign(it.optional_vars, v[1] if len(v) > 1 else None, fr)
+        self.exec_block(s.body, fr)
 
     def st_Assert(self, s, fr):
         c = self.truthy(self.eval(s.test, fr))
@@ -1215,6 +1230,8 @@ class Interp:
             return ('boundattr', o, attr)
         if isinstance(o, ModuleRef):
             full = o.name + '.' + attr
+            if full in self.spec.globals:
+                return self.spec.globals[full]
             if full in self.spec.models:
                 return self.spec.models[full]
             if o.name.startswith('tally'):
@@ -1676,6 +1693,8 @@ class Interp:
             return self.str_method(to_z3(o), attr, args, node)
         key = (type(o).__name__ if not isinstance(o, Obj) else 'Obj:%s' % o.cls, attr)
         h = self.spec.models.get('method:%s.%s' % key)
+        if h is None and isinstance(o, Obj):
+            h = self.spec.models.get('method:Obj:*.%s' % attr)
         if h is not None:
             return h.fn(self, [o] + list(args), kwargs, node)
         raise Unsupported('method .%s on %r' % (attr, o))
